@@ -7,8 +7,10 @@ package ice
 
 import (
 	"context"
+	"errors"
 	"fmt"
 	"net"
+	"runtime"
 	"strings"
 	"sync"
 	"sync/atomic"
@@ -25,7 +27,7 @@ var c10Methods = []string{
 	"AddRemoteCandidate", "SetRemoteCredentials", "Restart", "GatherCandidates", "UpdateOptions", "RenominateCandidate",
 	"OnCandidate", "OnConnectionStateChange", "OnSelectedCandidatePairChange",
 	"Conn.Write", "Conn.WriteToPair", "Conn.GetCandidatePairsInfo", "Conn.LocalAddr", "Conn.BytesSent", "Conn.SetReadDeadlineRead",
-	"tick", "inboundRequest", "inboundData", "inboundAnswer",
+	"tick", "inboundRequest", "inboundData", "inboundAnswer", "inboundIndication", "inboundIndication",
 }
 
 var c10Mutating = map[string]bool{
@@ -207,6 +209,17 @@ func TestVerif_C10_APIHammer(t *testing.T) {
 						inMu[sk.idx%4].Unlock()
 					}
 				}
+			case "inboundIndication":
+				// a Binding indication (keepalive of other ICE stacks) from a signalled address
+				if len(s.ag.socks) > 0 {
+					sk := s.ag.socks[k%len(s.ag.socks)]
+					ind, err := stun.Build(stun.TransactionID, stun.NewType(stun.MethodBinding, stun.ClassIndication), stun.Fingerprint)
+					if err == nil && !sk.isClosed() && sk.cand != nil {
+						inMu[sk.idx%4].Lock()
+						simBase(sk.cand).handleInboundPacket(ind.Raw, s.eps[k%len(s.eps)].pub)
+						inMu[sk.idx%4].Unlock()
+					}
+				}
 			case "inboundData":
 				if len(s.ag.socks) > 0 {
 					sk := s.ag.socks[k%len(s.ag.socks)]
@@ -282,5 +295,111 @@ func TestVerif_C10_APIHammer(t *testing.T) {
 		}
 		_ = net.IPv4zero
 		_ = context.Background
+	})
+}
+
+// c10InStart counts goroutines inside startConnectivityChecks that are parked (task-loop hand-off or the start mutex).
+func c10InStart() int {
+	buf := make([]byte, 1<<20)
+	n := runtime.Stack(buf, true)
+	c := 0
+	for _, g := range strings.Split(string(buf[:n]), "\n\n") {
+		if strings.Contains(g, "startConnectivityChecks") && (strings.Contains(g, "[select") || strings.Contains(g, "[sync.Mutex.Lock") || strings.Contains(g, "[semacquire")) {
+			c++
+		}
+	}
+
+	return c
+}
+
+// TestVerif_C10_StartRace: several StartDial/StartAccept calls at once (optionally queued on a held task loop
+// so that they overlap for certain).  Starting is one whole operation: exactly one call succeeds, the others
+// get ErrMultipleStart, and role and remote credentials are the winner's.
+func TestVerif_C10_StartRace(t *testing.T) {
+	st := vfNewStats(t)
+	rapid.Check(t, func(rt *rapid.T) {
+		n := rapid.IntRange(2, 4).Draw(rt, "startCalls")
+		dial := make([]bool, n)
+		for i := range dial {
+			dial[i] = rapid.Bool().Draw(rt, "dial")
+		}
+		hold := rapid.IntRange(0, 2).Draw(rt, "holdLoop") != 0
+		cfg := simAgentConfig{controlling: true, maxBinding: 7, disconnected: time.Hour, keepalive: 2 * time.Second, explicitTimeout: true}
+		s, err := newSoloSim(cfg, []duoSockSpec{{Kind: simKindHost}}, []soloEpSpec{{Typ: CandidateTypeHost}})
+		if err != nil {
+			rt.Fatalf("harness: %v", err)
+		}
+		defer s.close()
+		a := s.ag.a
+		release := make(chan struct{})
+		if hold {
+			entered := make(chan struct{})
+			go func() { _ = a.loop.Run(a.loop, func(context.Context) { close(entered); <-release }) }()
+			<-entered
+		}
+		errs := make([]error, n)
+		var wg sync.WaitGroup
+		for i := 0; i < n; i++ {
+			wg.Add(1)
+			go func(i int) {
+				defer wg.Done()
+				u, p := fmt.Sprintf("remoteUfrag%dxxxxxx", i), fmt.Sprintf("remotePassword%dxxxxxxxxxxxxxxxx", i)
+				if dial[i] {
+					_, errs[i] = a.StartDial(u, p)
+				} else {
+					_, errs[i] = a.StartAccept(u, p)
+				}
+			}(i)
+			if hold {
+				for d := time.Now().Add(20 * time.Second); c10InStart() < i+1; {
+					if time.Now().After(d) {
+						close(release)
+						st.Inconclusive()
+						rt.Fatalf("VERIF-INCONCLUSIVE: start call %d did not reach the agent", i)
+					}
+					runtime.Gosched()
+				}
+			}
+		}
+		if hold {
+			close(release)
+		}
+		done := make(chan struct{})
+		go func() { wg.Wait(); close(done) }()
+		select {
+		case <-done:
+		case <-time.After(20 * time.Second):
+			dead, dump := vfStuck("pion/ice/v4.(*Agent)")
+			if dead {
+				st.Fail(rt, "C10/start/deadlock", "concurrent start calls never returned\n%s", dump)
+			}
+			st.Inconclusive()
+			rt.Fatalf("VERIF-INCONCLUSIVE: start calls still running after 20 s")
+		}
+		desc := fmt.Sprintf("dial=%v heldLoop=%v results=%v", dial, hold, errs)
+		winners := []int{}
+		for i, e := range errs {
+			switch {
+			case e == nil:
+				winners = append(winners, i)
+			case errors.Is(e, ErrMultipleStart):
+			default:
+				st.Fail(rt, "C10/start/unexpected-error", "call %d: %v (%s)", i, e, desc)
+			}
+		}
+		st.Record(vfHashStr(desc), hold, fmt.Sprintf("held-loop:%v", hold))
+		if hold && st.WantSample() {
+			st.Sample(func() string { return desc })
+		}
+		if len(winners) != 1 {
+			st.Fail(rt, "C10/start/not-exactly-one-winner", "%d of %d concurrent start calls succeeded (%s)", len(winners), n, desc)
+
+			return
+		}
+		w := winners[0]
+		ru, rp, _ := a.GetRemoteUserCredentials()
+		if ru != fmt.Sprintf("remoteUfrag%dxxxxxx", w) || rp != fmt.Sprintf("remotePassword%dxxxxxxxxxxxxxxxx", w) || a.isControlling.Load() != dial[w] {
+			st.Fail(rt, "C10/start/state-not-the-winners", "winner is call %d (dial=%v) but remote credentials are (%s,%s) and controlling=%v (%s)", w, dial[w], ru, rp, a.isControlling.Load(), desc)
+		}
 	})
 }
